@@ -14,7 +14,7 @@ from ..strictjson import typed_eq
 PID = 'C20'
 LEVEL = 'exploration'
 RULE = ('one case = one history of mocker operations (add result / error / callback, once on/off, replace at a valid index, '
-        'remove method / endpoint, reset) and client calls (single or batch of 2..3 elements, positional or named params, '
+        'remove method / endpoint, reset) and client calls (single or batch of 1..3 elements, positional or named params, '
         'request ids 1, 7, 0, "x", "") over 2 endpoints x 2 methods, with passthrough on or off, through the patched '
         '`_request` of a harness-defined sync or async client class. After every call the reply text (strict-decoded), the '
         'ConnectionRefusedError, the passthrough invocation and mocker.calls are compared with a list model of the '
@@ -35,7 +35,7 @@ ANCHORS = [
     ('pjrpc/client/integrations/pytest.py', 'PjRpcMocker._cleanup_matches'),
 ]
 FLOORS = {'*': {'op:add': 500, 'op:replace': 50, 'op:remove-method': 50, 'op:remove-endpoint': 30, 'op:reset': 30,
-                'op:call': 500, 'op:batch': 200, 'once-exhausted-inside-batch': 10, 'passthrough': 50, 'refused': 50,
+                'op:call': 500, 'op:batch': 200, 'op:batch-of-one': 50, 'once-exhausted-inside-batch': 10, 'passthrough': 50, 'refused': 50,
                 'unpatched-method': 50, 'client:sync': 200, 'client:async': 200, 'round-robin>=3': 30, 'callback': 50,
                 'id:falsy': 30}}
 
@@ -145,6 +145,8 @@ def run_history(ctx, ops, passthrough, is_async):
             reqs = [{'jsonrpc': '2.0', 'id': rid, 'method': m, **({'params': p} if p else {})} for m, p, rid in elems]
             text = json.dumps(reqs[0] if single else reqs)
             ctx.hit('op:call' if single else 'op:batch')
+            if len(elems) == 1 and not single:
+                ctx.hit('op:batch-of-one')
             if any(rid in (0, '') for _, _, rid in elems):
                 ctx.hit('id:falsy')
             n_real = len(real_log)
@@ -243,6 +245,9 @@ def call_ops(rng, rich):
             out.append(['call', ep, [[m, [1, 'a'], ids[len(out) % 5]]]])
             out.append(['call', ep, [[m, {'k': 1}, ids[(len(out) + 2) % 5]]]])
         out.append(['call', ep, [['ma', [1], 1], ['ma', [2], 2]]])
+        # a batch of exactly one element is still a batch: the reply is a one-element array
+        out.append(['batch', ep, [['ma', [1], 1]]])
+        out.append(['batch', ep, [['mb', {'k': 1}, 0]]])
         out.append(['call', ep, [['ma', [1], 0], ['mb', {'z': 2}, 'x']]])
         out.append(['call', ep, [['ma', [], 1], ['ma', [5], 7], ['mb', [6], 3]]])
         if rich:
@@ -293,7 +298,7 @@ def gen(ctx):
             if n == 3 and not full and (seq[0] * 31 + seq[1] * 7 + seq[2]) % 3:
                 continue
             ops = [alpha[i] for i in seq]
-            if not any(o[0] == 'call' for o in ops):
+            if not any(o[0] in ('call', 'batch') for o in ops):
                 continue
             yield from emit(ops)
     # sampled longer histories over the full alphabet, biased towards adds first
@@ -308,7 +313,7 @@ def gen(ctx):
                 ops.append(rng.choice([o for o in muts if o[0] != 'add']))
             else:
                 ops.append(rng.choice(calls))
-        if ops[-1][0] != 'call':
+        if ops[-1][0] not in ('call', 'batch'):
             ops.append(rng.choice(calls))
         yield from emit(ops)
     # round-robin over >= 3 patches, once patches consumed inside batches, then further documents
